@@ -747,3 +747,69 @@ def relptr_candidates():
     bases = [[], ["a"], [0], ["a", 2], ["a", "b", 1], [3, "k"]]
     for base, origin, index, suffix in itertools.product(bases, (0, 1, 2, 3), (0, 1, -1, -3, 12), ([], ["x"], [0, "y"])):
         yield {"base_parts": base, "origin": origin, "index": index, "suffix_parts": suffix}
+
+
+# ---- C02: the standard function calls (the contract's arguments are abstract expressions: the witness is
+# ---- searched over stub arguments that evaluate to a fixed value, Nothing or a node list)
+
+def function_replay(name):
+    def replay(inputs):
+        import itertools
+
+        import specs.rfc9535_filter as fspec
+
+        flt = importlib.import_module("jsonpath.filter")
+        jm = importlib.import_module("jsonpath.match")
+        sel = importlib.import_module("jsonpath.selectors")
+        env = _env()
+
+        class Stub(flt.FilterExpression):
+            def __init__(self, value):
+                self.value = value
+                super().__init__()
+
+            def evaluate(self, context):
+                return self.value
+
+            async def evaluate_async(self, context):
+                return self.value
+
+            def children(self):
+                return []
+
+            def set_children(self, children):
+                return None
+
+            def __str__(self):
+                return f"<{self.value!r}>"
+
+        def nodes(*vals):
+            nl = jm.NodeList()
+            for i, v in enumerate(vals):
+                nl.append(jm.JSONPathMatch(filter_context={}, obj=v, parent=None, parts=(i,), path=f"$[{i}]", root=list(vals)))
+            return nl
+
+        values = [flt.UNDEFINED, nodes(), nodes("abc"), nodes([1, 2]), nodes("ab", "c"), nodes({"a": 1}), "abc", "", [1, 2, 3], {"a": 1, "b": 2}, 5, None, True, "a.c", "ab", "[", nodes("a.c")]
+        arity = {"length": 1, "count": 1, "value": 1, "match": 2, "search": 2}[name]
+        ctx = sel.FilterContext(env=env, current=None, root=None, extra_context={}, current_key=None)
+        for args in itertools.product(values, repeat=arity):
+            if name in ("count", "value") and not isinstance(args[0], jm.NodeList):
+                continue  # well-typedness: a NodesType parameter is given a query
+            if name in ("length", "match", "search") and any(isinstance(a, jm.NodeList) and len(a) > 1 for a in args):
+                continue  # a ValueType parameter is given a singular query
+            expr = flt.FunctionExtension(name, [Stub(a) for a in args])
+            try:
+                got = ("returns", expr.evaluate(ctx))
+            except Exception as e:  # noqa: BLE001
+                got = ("raises", type(e).__name__)
+            try:
+                want = ("returns", fspec.function_evaluate(expr, ctx))
+            except Exception as e:  # noqa: BLE001
+                want = ("raises", type(e).__name__)
+            same = got[0] == want[0] and (got[1] is want[1] or (type(got[1]) is type(want[1]) and got[1] == want[1]))
+            if not same:
+                shown = [("nodelist of %r" % ([m.obj for m in a],)) if isinstance(a, jm.NodeList) else repr(a) for a in args]
+                return f"{name}({', '.join(shown)}) {got[0]} {got[1]!r}; RFC 9535 section 2.4 {want[0]} {want[1]!r}"
+        return None
+
+    return replay
